@@ -9,6 +9,7 @@
     - job_filtering.go subSetNodesFn / getJobTopology / calculateRelevantDomainLevels /
       getJobAllocatableDomains / getRelevantDomainsWithAllocatedPods /
       hasActiveJobPodInDomain / addSubTreeToDomainMap                            -> [subset_cands]
+      hasActiveAllocatedTasks / hasActiveJobPodInDomain's status test           -> [pin_rule], [pinning]
       The resource-fit part (lowestCommonDomainID, checkJobDomainFit,
       calcTreeAllocatable) and the ordering (sortTree, sortDomainInfos) only
       drop and reorder candidates: an arbitrary sub-selection oracle             -> [subselect]
@@ -24,7 +25,7 @@
     called "root".  Domain levels are therefore referred to by index ([None] is
     the root).  No proofs in this file. *)
 From Coq Require Import List String ZArith Bool PeanoNat.
-From KaiV Require Import Model.Placement.
+From KaiV Require Import Model.Placement Model.Status.
 Import ListNotations.
 Open Scope string_scope.
 Open Scope list_scope.
@@ -116,6 +117,28 @@ Definition active_t := list (positive * string).   (* active-allocated pods and 
 
 Definition entries (ms : list positive) (l : active_t) : active_t :=
   filter (fun e => mem_pos (fst e) ms) l.
+
+(** The pods of a workload that sit on a node, with their status (the pod sets
+    of the session's job).  Which of them PIN the required-level domain is
+    decided by status: job_filtering.go hasActiveJobPodInDomain tests
+    pod_status.IsActiveAllocatedStatus (Allocated, Pipelined, Binding, Bound,
+    Running) - a Releasing pod (terminating after a deletion, or evicted earlier
+    in the cycle) holds node resources but pins nothing, and neither does a
+    Succeeded / Failed one. *)
+Definition spods := list (positive * string * status).
+
+Definition pinning (pins : status -> bool) (ps : spods) : active_t :=
+  flat_map (fun e : positive * string * status => if pins (snd e) then [fst e] else []) ps.
+
+(** the code's rule *)
+Definition pin_rule : status -> bool := active_allocated.
+(** NOT the code: the near-identical class that also holds Releasing
+    (pod_status.IsActiveUsedStatus) *)
+Definition pin_rule_used : status -> bool := active_used.
+
+(** the workload's ACTIVE pods in the sense of the property (what a new
+    placement must share its required-level domain with) *)
+Definition active_pods (ps : spods) : active_t := pinning active_allocated ps.
 
 (** the domains a level contributes (relevantDomainsByLevel[level]) *)
 Definition relevant_ids (vecs : list (string * list string)) (levels : list string) (req : string)
